@@ -1844,6 +1844,10 @@ def check_pending(ctx, env, pending, failing, stats, sample):
                 why.append(f"model raises at statement {res[0]}, the code at one of {p['err_ids']} ({p['site']})")
             if res[1] != real:
                 why.append(f"model raises {res[1]}, the code {real}")
+        if res is not None:
+            st = _find_stmt(E[p["step"]["entry"]].ir, res[0])
+            if st is not None and st["op"] == "call" and st["m"] and not st["a"] and targets and targets[-1] == "call:" + st["f"][:60]:
+                targets = targets[:-1]       # a non-atomic call that raises: the model counts it as having written
         if targets != p["targets"]:
             why.append(f"model executes mutations {targets}, the trace shows {p['targets']}")
         base = E[p["step"]["entry"]].base
@@ -1862,6 +1866,18 @@ def check_pending(ctx, env, pending, failing, stats, sample):
         ctx.broken_obligations.append({"obligation": "correspondence Setter.exec vs traced real setter calls",
                                        "detail": {"n": len(bad), "entries": sorted({b["entry"] for b in bad})[:12], "first": bad[0]}})
     return {"requests": len(reqs), "agree": agree, "disagree": len(bad), "vm_crosschecked": nx}
+
+
+def _find_stmt(ir, i):
+    for s in ir:
+        if s["id"] == i:
+            return s
+        for k in ("body", "b1", "b2"):
+            if k in s:
+                r = _find_stmt(s[k], i)
+                if r is not None:
+                    return r
+    return None
 
 
 def analysis_of(env):
@@ -1898,7 +1914,9 @@ def run(ctx):
                                                      "(fail closed)", "detail": str(e)})
         ctx.prove()
         return ctx.finish(TRUSTED, ASSUMPTIONS, RULE)
+    marks = {"translate": round(time.time() - t0, 1)}
     proved = ctx.prove()
+    marks["prove"] = round(time.time() - t0, 1)
     G, E = env["G"], env["E"]
     # the analysis on the tables of the working tree: which setters fail it (names the witnesses when the
     # obligation C14_excluded_exact does not hold any more)
@@ -1938,7 +1956,7 @@ def run(ctx):
                     corpus_failed.append(f)
                     ctx.fail({"kind": d["kind"], "case": c, "diff": d["diff"], "entry": c["call"].get("entry"),
                               "class": c["call"].get("cls"), "corpus": f})
-    budget = (45 if quick else 780) - min(30, time.time() - t0) * 0
+    budget = 40 if quick else 780
     deadline = time.time() + budget
     max_rounds = 10 ** 9
     i = 0
@@ -1951,7 +1969,9 @@ def run(ctx):
         if ses is not None:
             pending += ses.pending
         i += 1
+    marks["search"] = round(time.time() - t0, 1)
     corr = check_pending(ctx, env, pending, failing, stats, sample=40 if quick else 150)
+    marks["model"] = round(time.time() - t0, 1)
     # replay of the committed findings
     for fd in ctx.findings:
         if fd.get("status") != "open":
@@ -1968,6 +1988,7 @@ def run(ctx):
             fd["_reproduced"] = d is not None
         except Exception:
             fd["_reproduced"] = False
+    marks["findings"] = round(time.time() - t0, 1)
     # coverage of the enumeration
     uncovered, cannot = [], []
     for key, e in E.items():
@@ -1992,7 +2013,7 @@ def run(ctx):
         "entries that cannot be rejected (no may-raise statement in the IR; none observed)": sorted(cannot),
         "collection entries exercised": sorted(k for k in stats.by_entry if k in coll_keys),
         "correspondence": corr, "corpus_failed": corpus_failed,
-        "translator claims used": len(G["notes"]),
+        "translator claims used": len(G["notes"]), "time marks (s)": marks,
     }
     return ctx.finish(TRUSTED, ASSUMPTIONS, RULE, extra=extra)
 
